@@ -75,6 +75,13 @@ fn cases_list() -> Vec<Value> {
     }
     for perm in 0..6 {
         v.push(json!({"kind": "struct-lit", "perm": perm}));
+        // one field value fails (a division by a zero variable, a read past the end of a vector, a read
+        // of a field of a tuple that holds it): what stands before it in the text has run, the rest not
+        for failing in 0..3 {
+            for how in ["division", "vector-read", "plain-reads"] {
+                v.push(json!({"kind": "struct-lit", "perm": perm, "failing": failing, "how": how}));
+            }
+        }
     }
     for n in 0..=3 {
         v.push(json!({"kind": "while", "iters": n}));
@@ -104,9 +111,11 @@ fn cases_list() -> Vec<Value> {
 }
 
 const SHARED_FORMS: [&str; 9] = ["call-args", "closure-args", "method-args", "tuple", "array", "enum-ctor", "struct-lit", "arithmetic", "nested-call-args"];
-const WHILE_CONDS: [&str; 16] = [
+const WHILE_CONDS: [&str; 20] = [
     "cmp", "and-second-false", "or-both-false", "not", "call", "if-else-false", "match-int-literal-false", "match-int-default-false", "match-bool", "match-enum", "match-string", "match-tuple",
     "and-with-match", "or-with-match", "if-with-match-inside", "match-with-if-inside",
+    // a match / if that yields a number, as an operand of the comparison
+    "match-as-operand", "match-on-call-as-operand", "if-as-operand", "sum-of-two-matches-as-operand",
 ];
 
 fn build(case: &Value) -> Option<(Program, String)> {
@@ -355,13 +364,29 @@ fn build(case: &Value) -> Option<(Program, String)> {
             let perms = [[0, 1, 2], [0, 2, 1], [1, 0, 2], [1, 2, 0], [2, 0, 1], [2, 1, 0]];
             let perm = perms[case["perm"].as_u64().unwrap() as usize];
             let names = ["a", "b", "c"];
-            let fields: Vec<(String, E)> = perm.iter().map(|i| (names[*i].to_string(), T6::I32.probe(*i as i128 + 1))).collect();
+            let mut fields: Vec<(String, E)> = perm.iter().map(|i| (names[*i].to_string(), T6::I32.probe(*i as i128 + 1))).collect();
+            if let Some(failing) = case["failing"].as_u64() {
+                // the value written at this position of the literal is call-free
+                let (zero, total, vs, pr) = (n.fresh("zero"), n.fresh("total"), n.fresh("vs"), n.fresh("pr"));
+                body.push(let_(zero, int(0)));
+                body.push(let_(total, int(10)));
+                body.push(let_(vs, bi("vec_push", vec![bi("vec_new", vec![]), int(1)])));
+                body.push(let_(pr, E::Tuple(vec![int(7), int(8)])));
+                fields[failing as usize].1 = match case["how"].as_str().unwrap() {
+                    "division" => bin(BinOp::Div, v(total), v(zero)),
+                    "vector-read" => bi("vec_get", vec![v(vs), int(5)]),
+                    _ => add(E::Proj(Box::new(v(pr)), 0), v(total)),
+                };
+            }
             let r = n.fresh("r");
             body.push(let_(r, E::StructLit("P3".into(), fields, vec![])));
             for f in names {
                 body.push(st(T6::I32.show(E::Field(Box::new(v(r)), f.into()))));
             }
-            site = format!("struct-lit;written-order={}", if case["perm"] == 0 { "declaration" } else { "permuted" });
+            site = match case["failing"].as_u64() {
+                Some(f) => format!("struct-lit;written-order={};field-{}-is-a-{}", if case["perm"] == 0 { "declaration" } else { "permuted" }, f, case["how"].as_str().unwrap()),
+                None => format!("struct-lit;written-order={}", if case["perm"] == 0 { "declaration" } else { "permuted" }),
+            };
         }
         "shared-reads" => {
             let form = case["form"].as_str().unwrap();
@@ -478,6 +503,8 @@ fn build(case: &Value) -> Option<(Program, String)> {
             items.push(fn_def("classify", vec![(q2, Ty::i32())], Some(Ty::named("Sz")), if_(bin(BinOp::Lt, v(q2), int(3)), E::Ctor("Sz".into(), "Small".into(), false, vec![], vec![]), E::Ctor("Sz".into(), "Big".into(), false, vec![v(q2)], vec![]))));
             let q3 = n.fresh("q");
             items.push(fn_def("word", vec![(q3, Ty::i32())], Some(Ty::Str), if_(bin(BinOp::Lt, v(q3), int(3)), s("go"), s("stop"))));
+            let q4 = n.fresh("q");
+            items.push(fn_def("same", vec![(q4, Ty::i32())], Some(Ty::i32()), block(vec![st(println(s("same")))], Some(v(q4)))));
             let int_pat = |k: i128| Pat::Int(k, IntKind::I32, false);
             let match3_false = || E::Match(Box::new(get()), vec![(int_pat(3), E::Bool(false)), (Pat::Wild, E::Bool(true))]);
             let w = n.fresh("w");
@@ -494,6 +521,14 @@ fn build(case: &Value) -> Option<(Program, String)> {
                 "match-enum" => E::Match(Box::new(call("classify", vec![get()])), vec![(Pat::Ctor("Sz".into(), "Small".into(), false, vec![]), E::Bool(true)), (Pat::Ctor("Sz".into(), "Big".into(), false, vec![Pat::Var(w)]), bin(BinOp::Lt, v(w), int(0)))]),
                 "match-string" => E::Match(Box::new(call("word", vec![get()])), vec![(Pat::Str("go".into()), E::Bool(true)), (Pat::Wild, E::Bool(false))]),
                 "match-tuple" => E::Match(Box::new(E::Tuple(vec![lt(3), lt(10)])), vec![(Pat::Tuple(vec![Pat::Bool(true), Pat::Bool(true)]), E::Bool(true)), (Pat::Wild, E::Bool(false))]),
+                "match-as-operand" => bin(BinOp::Lt, E::Match(Box::new(call("same", vec![get()])), vec![(int_pat(3), int(10)), (Pat::Wild, int(1))]), int(3)),
+                "match-on-call-as-operand" => bin(BinOp::Lt, E::Match(Box::new(call("classify", vec![get()])), vec![(Pat::Ctor("Sz".into(), "Small".into(), false, vec![]), int(1)), (Pat::Ctor("Sz".into(), "Big".into(), false, vec![Pat::Var(w)]), v(w))]), int(3)),
+                "if-as-operand" => bin(BinOp::Lt, if_(lt(3), int(1), int(5)), int(3)),
+                "sum-of-two-matches-as-operand" => bin(
+                    BinOp::Lt,
+                    add(E::Match(Box::new(call("same", vec![get()])), vec![(int_pat(3), int(10)), (Pat::Wild, int(1))]), E::Match(Box::new(call("word", vec![get()])), vec![(Pat::Str("go".into()), int(0)), (Pat::Wild, int(7))])),
+                    int(3),
+                ),
                 "and-with-match" => bin(BinOp::And, lt(10), match3_false()),
                 "or-with-match" => bin(BinOp::Or, bin(BinOp::Lt, get(), int(0)), match3_false()),
                 "if-with-match-inside" => if_(lt(10), match3_false(), E::Bool(false)),
@@ -593,7 +628,7 @@ impl Family for EvalOrder {
         &["C09", "C01", "C02", "C04"]
     }
     fn rule(&self) -> &'static str {
-        "effect probes in both operand positions of all 12 binary operators at int32/int8/string/bool; full truth tables (8 assignments) of 10 &&/||/! formulas in 5 positions (let, if condition, while condition, argument, return); calls with 0-3 probed arguments through 7 callee forms (fn, closure, effectful callee expression yielding a closure / yielding a plain function, method dot/path form with probed receiver, generic fn); struct literals in all 6 written field orders; while with 0-3 iterations and a probed condition; 9 call forms with an effect (fn, closure, method dot/path, trait path, through a bound, dyn, generic, builtin) in 7 positions whose value is discarded (statement, tail of a while body, tail of an if inside a while body, branch of an if / match statement, let _, tail of a block inside an if statement); tuple/array/constructor elements; three elements of one list that read and increment one Ref cell (directly, through an alias, through a call) in all 27 combinations x 9 list forms (call / closure / method arguments, tuple, array, constructor, struct literal, one arithmetic expression, calls as arguments); 16 kinds of while condition whose `false` comes from a comparison / && / || / ! / call / if / match on int, bool, enum, string, tuple / match inside && , || and if / if inside match, for the first time after three iterations, alone and inside an outer loop that runs it twice; guards: the same 10 formulas x 8 assignments with a call-free trapping operand (100 / z > 3, z in {0, 1}) in each leaf position, the other leaves plain variables or probes, as a function result or an if condition. non-trivial = programs printing >= 2 probes; distinct = distinct source text"
+        "effect probes in both operand positions of all 12 binary operators at int32/int8/string/bool; full truth tables (8 assignments) of 10 &&/||/! formulas in 5 positions (let, if condition, while condition, argument, return); calls with 0-3 probed arguments through 7 callee forms (fn, closure, effectful callee expression yielding a closure / yielding a plain function, method dot/path form with probed receiver, generic fn); struct literals in all 6 written field orders, also with one field value that is call-free (a division by zero, a vector read past the end, plain reads) at each of the three written positions between two probes; while with 0-3 iterations and a probed condition; 9 call forms with an effect (fn, closure, method dot/path, trait path, through a bound, dyn, generic, builtin) in 7 positions whose value is discarded (statement, tail of a while body, tail of an if inside a while body, branch of an if / match statement, let _, tail of a block inside an if statement); tuple/array/constructor elements; three elements of one list that read and increment one Ref cell (directly, through an alias, through a call) in all 27 combinations x 9 list forms (call / closure / method arguments, tuple, array, constructor, struct literal, one arithmetic expression, calls as arguments); 20 kinds of while condition whose `false` comes from a comparison / && / || / ! / call / if / match on int, bool, enum, string, tuple / match inside && , || and if / if inside match, for the first time after three iterations, alone and inside an outer loop that runs it twice; guards: the same 10 formulas x 8 assignments with a call-free trapping operand (100 / z > 3, z in {0, 1}) in each leaf position, the other leaves plain variables or probes, as a function result or an if condition. non-trivial = programs printing >= 2 probes; distinct = distinct source text"
     }
     fn cases(&self, _tier: Tier) -> Box<dyn Iterator<Item = Value> + '_> {
         Box::new(cases_list().into_iter())
